@@ -5,7 +5,6 @@ package main
 
 import (
 	"fmt"
-	"reflect"
 	"strings"
 
 	"gonum.org/v1/gonum/blas"
@@ -221,7 +220,7 @@ func scalarSettings(r *Routine, p Prec, mn *menus) []scalarSetting {
 // rotmSettings: every flag with H patterns from the scalar alphabet; the
 // entries of H that the flag declares unused are NaN.
 func rotmSettings(mn *menus) []scalarSetting {
-	nan := real(complex128(complex(vlib.Poison64(77), 0)))
+	nan := vlib.Poison64(77)
 	pats := [][4]float64{{2, -1, 0.5, 1}, {0, 1, -1, 2}, {-1, 0.5, 2, 0}}
 	if len(mn.realSc) <= 4 {
 		pats = pats[:2]
@@ -389,5 +388,3 @@ func genLevel(level int) func(g *vlib.G) {
 		}
 	}
 }
-
-var _ = reflect.ValueOf
